@@ -44,7 +44,7 @@ func verifC20SchedWorkflow(steps int) string {
 // error and LintFiles returns it: even then no tool goroutine may be unfinished at the return.
 func HarnessC20Schedule(files, steps, cpus, enc, fail int) {
 	if verifIsNative() {
-		verifC20NativeSchedule(fail == 1, files == 0)
+		verifC20NativeSchedule(fail == 1, files)
 		return
 	}
 	verifSetNumCPU(cpus)
@@ -59,6 +59,7 @@ func HarnessC20Schedule(files, steps, cpus, enc, fail int) {
 	verifC10Cfg = map[string]*Config{}
 	verifOverride("os.ReadFile", verifC10ReadFile)
 	verifOverride("findProject", verifC10FindProject)
+	verifOverride("findProjectRoot", verifC10FindProjectRoot)
 	verifOverride("loadRepoConfig", verifC10RepoConfig)
 	verifOverride("resolveExternalCommand", verifC20Resolve)
 	verifOverride("os/exec.Command", verifC20Command)
@@ -115,6 +116,7 @@ func HarnessC10Races(files, steps int) {
 	verifC10Cfg = map[string]*Config{"/r": {ConfigVariables: []string{"zeta", "alpha"}}}
 	verifOverride("os.ReadFile", verifC10ReadFile)
 	verifOverride("findProject", verifC10FindProject)
+	verifOverride("findProjectRoot", verifC10FindProjectRoot)
 	verifOverride("loadRepoConfig", verifC10RepoConfig)
 	verifOverride("resolveExternalCommand", verifC20Resolve)
 	verifOverride("os/exec.Command", verifC20Command)
